@@ -46,6 +46,27 @@ CHECKS = {
              "is run in every container, its outputs recorded as scaled integers and validated by TLC against MLE.tla.",
         note="exhaustive within n<=3, entries <=3 (quick) / <=4,<=2 (thorough); sparse arrays (csr_array, ...) are outside the property's quantifier; stationarity only where the chain is strongly connected",
         ref="6/C04"),
+    "C05": dict(
+        technique="TLA+ specs Ragged.tla/RaggedRead.tla (list-of-rows Get vs step-level transcription of the flat-offset arithmetic) model-checked with TLC; spec->code replay of every emitted (shape, index expression); TLC trace validation of the reads of test_ra.py",
+        text="Get(rows, ix) is defined by the list-of-rows meaning for the whole index grammar (int, slice, list, the eight pair forms, "
+             "ragged boolean mask) with tagged results Rows/Flat/Col/Scalar/Err; the implementation's conversion (_slice_to_list, "
+             "_get_iis_from_slices/_list, _convert_from_2d with bounds check, where) is transcribed as operators and as a step machine, and "
+             "TLC checks ReadEq / NoNeighbourLeak / ElementOutsideRaises and classifies every index class. Every emitted case is replayed "
+             "on real arrays built in three ways with scalar and 2-vector elements, attributes included; reads recorded from the "
+             "repository's own test_ra.py are validated by Trace_RaggedRead.tla (thorough).",
+        note="shapes <=3 rows x length <=3 (thorough: a shard of <=4x4), bounds -4..4 or None, steps None/1/2/-1, lists of length <=2; two-slot products pairwise in quick; error types are not compared, only that an error is raised",
+        ref="6/C05"),
+    "C06": dict(
+        technique="TLA+ spec RaggedWrite.tla (abstract rows + concrete data/arr/lengths per writer, Coherent after every action) model-checked with TLC; TLC-generated operation histories replayed into the real object with all observers compared after every step",
+        text="Each writer of RaggedArray (element, row, (int,slice), 2-d block, column, paired fancy, mask incl. empty, row-slice from list or "
+             "RaggedArray, append) updates the concrete fields the way the code does and TLC checks that all views stay coherent with the "
+             "list-of-rows value, that operators keep the row structure, return new objects and leave operands untouched, and that an "
+             "augmented assignment leaves the old object intact. TLC emits every single operation from every initial shape, every pair "
+             "(thorough) and simulated walks of length 6; the driver applies each history to a real object built in three ways and after "
+             "EVERY step compares iteration, flatten+lengths, starts, row and element reads, ==, max/min, size, shape, the previous object "
+             "and the caller's buffer with the specification state.",
+        note="integer elements; shape-preserving write grammar of DESIGN.md 6/C06; shapes <=3 rows x length <=3; index expressions invalid on a list of rows are C05's subject",
+        ref="6/C06"),
     "C09": dict(
         technique="TLA+ specs PAM.tla/Hybrid.tla model-checked with TLC over all accept/reject histories; TLC trace validation of every proposal (from DEBUG records) and sweep of the real k-medoids / k-hybrid",
         text="TLC explores every sequence of proposals (members, or explicit proposal lists incl. frames of other clusters) with "
@@ -67,6 +88,15 @@ CHECKS = {
              "bound by trace validation.",
         note="exhaustive within <=4 trajectories / total <=8 frames, <=3 centers, 1-D 0..5 and 3x3 grid; ties may go to any nearest center; mdtraj part judged against a recorded rmsd table (1e-3 nm)",
         ref="6/C10"),
+    "C11": dict(
+        technique="TLA+ spec Trim.tla (threshold, components, weigh, keep-any-heaviest, extract/zero-out, mapping) model-checked with TLC against a Warshall-closure definition; spec->code replay in 4 containers incl. MSM.fit",
+        text="TLC checks KeptIsSCC, Heaviest, TrimmedStronglyConnected, CountsPreserved, NothingOnRemoved, MappingBijectiveMonotone, "
+             "VariantsAgree, ContainerPreserved and Frozen on every count matrix in scope and emits per (C, threshold) the set of admissible "
+             "kept sets (ties in weight) with the expected matrices and mappings of both variants; trim_disconnected is replayed for "
+             "ndarray/csr/coo/lil with renumbering on and off (result, mapping both ways, type, caller's matrix), and "
+             "MSM(trim=True).fit on trajectories realising the matrix must report the same mapping and trimmed counts.",
+        note="all 3x3 matrices with entries 0..2 and all 4x4 with entries 0..1, thresholds 1..2 (thorough: samples of 4x4 entries <=3 and 5x5 0/1, threshold 3)",
+        ref="6/C11"),
     "C12": dict(
         technique="TLC trace validation (MLE.tla) of recorded runs of both estimator implementations on TLC-enumerated inputs",
         text="Every strongly connected count matrix enumerated by TLC in scope (plus seeded random real-valued and strongly "
@@ -99,6 +129,15 @@ CHECKS = {
              "eigenvalues (ln table) and exact rational propagation.",
         note="assignment sets <=2 trajectories, length <=3..5; spectral relations at 1e-4..1e-6 (timescales 1e-2) because of 32-bit integers; eigenvalues of non-reversible chains only ordered",
         ref="6/C16"),
+    "C17": dict(
+        technique="TLA+ specs WidestPath.tla (Dijkstra-style machine vs brute force over all simple paths) and Paths.tla (peeling loop) model-checked with TLC; spec->code replay of top_path and TLC trace validation (Trace_Paths.tla) of every recorded paths() run",
+        text="TLC checks PathIsSimple, PathAlongPositiveEdges, FluxIsMinEdge, Optimal (= brute-force widest bottleneck), Unreachable on the "
+             "transcription of top_path for every digraph in scope, and NonIncreasing, SumWithinTotal, ReachesFraction, RespectsNumPaths, "
+             "CallerMatrixUntouched on the peeling loop for both removal schemes; every graph is replayed into the real top_path (result "
+             "must be one of the emitted optimal paths) and every recorded paths() run (both schemes x path-count x flux-cutoff limits) is "
+             "validated step by step: each reported path must be a legal Peel of the specification's own residual.",
+        note="n=4..5 nodes, weights 0..3, multi-source/sink families, conserved DAG flows; dense inputs only (the functions are documented for ndarray); two known findings for remove_path='bottleneck'",
+        ref="6/C17"),
     "C19": dict(
         technique="TLA+ heap/purity model (Purity.tla) over a routine table extracted from the current source, model-checked with TLC; TLC-enumerated call histories replayed under a poisoning numpy allocator",
         text="harness/extract/masked_sites.py lists every masked element-wise call and uninitialised allocation of the current source; TLC "
